@@ -46,23 +46,49 @@ Fixpoint collect_macro (roots : list dir) (kept : list dir) (ms : macros) : cres
       else collect_macro rest (d :: kept) ms
   end.
 
-(* findPaste: a PASTE of the macro's own name directly inside its body *)
-Fixpoint find_paste (fuel : nat) (name : bytes) (d : dir) : option cerr :=
+(* the PASTE directives inside a directive, in document (pre-)order *)
+Fixpoint paste_nodes (fuel : nat) (d : dir) : list dir :=
   match fuel with
-  | O => None
+  | O => []
   | S fuel' =>
-      if N.eqb (d_kind d) DirectiveTables.dir_Paste then
-        let n := named d KName in
-        if beq n [] then Some (required_name d)
-        else if beq n name then Some (dir_error d (msg1 ErrConsts.jerr_RecursionIsProhibited))
-        else None
-      else
-        (fix first (cs : list dir) : option cerr :=
-           match cs with
-           | [] => None
-           | c :: r => match find_paste fuel' name c with Some e => Some e | None => first r end
-           end) (d_children d)
+      if N.eqb (d_kind d) DirectiveTables.dir_Paste then [d]
+      else flat_map (paste_nodes fuel') (d_children d)
   end.
+
+Definition macro_pastes (fuel : nat) (m : dir) : list dir :=
+  flat_map (paste_nodes fuel) (d_children m).
+
+(* macroReaches: expanding the macro [from] pastes [target], directly or through other macros *)
+Fixpoint reaches (fuel depth : nat) (ms : macros) (from target : bytes) : bool :=
+  match fuel with
+  | O => false
+  | S fuel' =>
+      match macro_lookup ms from with
+      | None => false
+      | Some m =>
+          existsb (fun p => let n := named p KName in
+                            beq n target || (negb (beq n []) && reaches fuel' depth ms n target))
+                  (macro_pastes depth m)
+      end
+  end.
+
+(* findPaste on one PASTE directive of the macro [name] *)
+Definition paste_verdict (fuel depth : nat) (ms : macros) (name : bytes) (p : dir) : option cerr :=
+  let n := named p KName in
+  if beq n [] then Some (required_name p)
+  else if beq n name then Some (dir_error p (msg1 ErrConsts.jerr_RecursionIsProhibited))
+  else if reaches fuel depth ms n name then Some (dir_error p (msg1 ErrConsts.jerr_RecursionIsProhibited))
+  else None.
+
+Fixpoint first_some {A B} (f : A -> option B) (l : list A) : option B :=
+  match l with
+  | [] => None
+  | x :: r => match f x with Some y => Some y | None => first_some f r end
+  end.
+
+(* findPaste(macroName, macro): the macro directive itself is never a PASTE *)
+Definition find_paste (fuel depth : nat) (ms : macros) (name : bytes) (m : dir) : option cerr :=
+  first_some (paste_verdict fuel depth ms name) (macro_pastes depth m).
 
 Fixpoint dir_depth (fuel : nat) (d : dir) : nat :=
   match fuel with
@@ -70,11 +96,9 @@ Fixpoint dir_depth (fuel : nat) (d : dir) : nat :=
   | S f => S (fold_right (fun c acc => Nat.max (dir_depth f c) acc) O (d_children d))
   end.
 
-(* checkMacroForRecursion iterates a Go map: whichever macro is visited first reports.  The
-   model returns every macro's verdict, in declaration order; the build fails with one of
-   them when the list is not empty (order oracle, C06). *)
-Definition check_recursion (fuel : nat) (ms : macros) : list cerr :=
-  flat_map (fun p => match find_paste fuel (fst p) (snd p) with Some e => [e] | None => [] end) ms.
+(* checkMacroForRecursion: macros in declaration order, the first verdict wins *)
+Definition check_recursion (depth : nat) (ms : macros) : option cerr :=
+  first_some (fun p => find_paste (S (List.length ms)) depth ms (fst p) (snd p)) ms.
 
 Record xstate := mkX {
   x_forest : list dir;
@@ -210,9 +234,8 @@ Definition compile_macros (enum_check : coords -> option (N * Z)) (fuel : nat) (
   | CFuel => XFuel
   | COk (roots', ms) =>
       match check_recursion fuel ms with
-      | [e] => XErr e
-      | (_ :: _ :: _) as es => XErrOneOf es
-      | [] =>
+      | Some e => XErr e
+      | None =>
           match expand_list enum_check ms fuel (mkX [] None []) roots' with
           | CErr e => XErr e
           | CPanic p => XPanic p
